@@ -3,7 +3,7 @@ from __future__ import annotations
 
 import casadi as ca
 
-from cyverif.harness import Ob, cells, PROVED, REFUTED, Result
+from cyverif.harness import ERROR, Ob, cells, PROVED, REFUTED, UNDECIDED, Result
 from cyverif.harness import Trace as _Trace
 from cyverif.ring import Frac
 from cyverif.sorts import Free
@@ -244,6 +244,85 @@ def gimbal_band_traces():
     return T
 
 
+class NanFreeJob:
+    """floating-point domain safety of the conversions TO Euler angles (the only ones through asin): for every input whose
+    entries are doubles in the stated box - in particular every unit quaternion / rotation matrix as it comes out of
+    floating-point arithmetic, where -R[2,0] can be 1 + 2^-52 at a gimbal pole - all three returned angles are finite.
+    Decided by the forward floating-point analysis of the real graph (a sqrt / asin argument that may leave its domain in
+    floating point makes the analysis fail); a failure is turned into a violation only by a concrete input (searched at the
+    poles) on which the real function returns NaN."""
+
+    def __init__(self, src):
+        from cyecca.lie.group_so3 import SO3EulerLieGroup
+        self.src = src
+        self.id = f"C07.fp-domain[Euler.from_{src}]"
+        self.functions = [getattr(SO3EulerLieGroup, "from_" + src), SO3EulerLieGroup.from_Matrix]
+        self.lemmas = ["A-FP standard floating-point model"]
+        self.assumptions = ["A-FP: IEEE doubles, round to nearest; libm asin / atan2 return a finite value for every finite in-domain argument"]
+
+    def _fn(self):
+        from cyecca.lie.group_so3 import SO3EulerB321
+        n = {"Quat": 4, "Mrp": 3, "Dcm": 9, "Matrix": 9}[self.src]
+        X = ca.SX.sym("X", n)
+        if self.src == "Matrix":
+            out = SO3EulerB321.from_Matrix(ca.reshape(X, 3, 3)).param
+        else:
+            out = getattr(SO3EulerB321, "from_" + self.src)(SO3_GROUPS[self.src].elem(X)).param
+        return X, out, n
+
+    def _pole_inputs(self, rng, count=400):
+        """inputs at the gimbal poles as floating-point arithmetic produces them"""
+        import math
+        from cyecca.lie.group_so3 import SO3EulerB321
+        e = ca.SX.sym("e", 3)
+        if self.src == "Matrix":
+            conv = ca.Function("c", [e], [ca.vec(SO3EulerB321.elem(e).to_Matrix())])
+        else:
+            conv = ca.Function("c", [e], [getattr(SO3_GROUPS[self.src], "from_Euler")(SO3EulerB321.elem(e)).param])
+        for k in range(count):
+            th = (math.pi / 2) * (1 if k % 2 else -1)
+            yield [float(v) for v in ca.DM(conv([rng.uniform(-3.1, 3.1), th, rng.uniform(-3.1, 3.1)])).full().ravel()]
+
+    def run(self, seed=0):
+        import math
+        import random
+        import time as _t
+        from cyverif import fperr, ir
+        from cyverif.interval import IV
+        t0 = _t.time()
+        name = f"Euler.from_{self.src}: no NaN / inf for any input with entries in the box (incl. the gimbal poles as computed in doubles)"
+        try:
+            X, out, n = self._fn()
+            g, on, n_instr = ir.extract({"X": X}, {"out": out})
+            roots = [row[0] for row in on["out"] if row[0] is not None]
+            r = 1.01 if self.src in ("Dcm", "Matrix") else 1.0
+            env = {("X", i, 0): IV(-r, r) for i in range(n)}
+            memo = fperr.analyse(g, roots, env, {}, None, None, fperr.use_guards(g, roots))
+            ok = all(memo[k][0].finite() and math.isfinite(memo[k][1]) for k in roots)
+            if ok:
+                return [Result(self.id, name, PROVED, "FPERR", "", _t.time() - t0, f"every asin / sqrt argument stays in its domain and every divisor away from 0 in floating point on the box |x_i| <= {r} ({n_instr} instructions)", None, len(roots))]
+            # not provable: look for a concrete failing input at the poles
+            f = ca.Function("f", [X], [out])
+            rng = random.Random(seed + 5)
+            for x in self._pole_inputs(rng):
+                y = [float(v) for v in ca.DM(f(x)).full().ravel()]
+                if any(math.isnan(v) or math.isinf(v) for v in y):
+                    return [Result(self.id, name, REFUTED, "FPERR+EVAL", "", _t.time() - t0,
+                                   f"the analysis cannot keep an asin / sqrt argument inside its domain, and the real function returns {y} for a pole input computed in doubles",
+                                   {"inputs": {"X": [[v] for v in x]}, "outputs": y}, len(roots))]
+            return [Result(self.id, name, UNDECIDED, "FPERR", "", _t.time() - t0, "an asin / sqrt argument may leave its domain in floating point (no failing input found among 400 pole inputs)")]
+        except Exception as e:
+            import traceback
+            return [Result(self.id, name, ERROR, "FPERR", "", _t.time() - t0, f"{type(e).__name__}: {e}\n{traceback.format_exc(limit=4)}")]
+
+    def replay(self, w):
+        import math
+        X, out, n = self._fn()
+        y = [float(v) for v in ca.DM(ca.Function("f", [X], [out])([row[0] for row in w["inputs"]["X"]])).full().ravel()]
+        bad = any(math.isnan(v) or math.isinf(v) for v in y)
+        return bad, f"outputs {y}"
+
+
 def traces(tier="quick"):
     return conv_traces(tier) + gimbal_band_traces()
 
@@ -255,6 +334,8 @@ def jobs(tier="quick"):
         gs = SO3_GROUPS[src]
         J.append(PitchIsAsin(f"C07.Euler.from_{src}.pitch", src, lambda X, gs=gs, src=src: getattr(SO3EulerB321, "from_" + src)(gs.elem(X)),
                              [SO3EulerLieGroup.from_Matrix]))
+    for src in ("Quat", "Mrp", "Dcm", "Matrix"):
+        J.append(NanFreeJob(src))
     return J
 
 
